@@ -1,6 +1,8 @@
 import Driver.Codec
 import Pushr.Full
 import Driver.RandDrv
+import Pushr.Spec.C04
+import Pushr.Spec.C05
 /-! `exec` / `step` requests: one observed transition of the real interpreter state. -/
 open Pushr Codec
 
@@ -46,7 +48,46 @@ abbrev PropEval := Instr → State → Option State → Option String
 
 def panicFree : PropEval := fun _ _ post => if post.isNone then some "implementation panicked" else none
 
-def propEvals : List (String × PropEval) := [("C01", panicFree)]
+/-- C04: the implementation's outcome must be the state the reference table prescribes -/
+def c04Eval : PropEval := fun i pre post =>
+  if !C04.inTable i then none
+  else match post, C04.row i pre with
+    | some post, some r =>
+      let want := C04.apply r pre (C04.pushedInt r pre post)
+      if encState post == encState want then none
+      else
+        -- is it exactly the recorded deviation (K03 / K04)?
+        let tag := match C04.deviantRow i pre with
+          | some d =>
+            if encState post == encState (C04.apply d pre (C04.pushedInt d pre post)) then
+              (match i with
+               | .boolean _ => "[K03] "
+               | _ => "[K04] ")
+            else ""
+          | none => ""
+        some (tag ++ "reference table prescribes " ++ encState want)
+    | _, _ => none
+
+/-- C05: the implementation's outcome must be the position-map statement of the operation -/
+def c05Eval : PropEval := fun i pre post =>
+  match i, post with
+  | .stk t o, some post =>
+    let want := C05.expectTy t o pre
+    if encState post == encState want then none
+    else some ("position-map statement prescribes " ++ encState want)
+  | _, _ => none
+
+def propEvals : List (String × PropEval) := [("C01", panicFree), ("C04", c04Eval), ("C05", c05Eval)]
+
+/-- instruction names in the scope of a property's single-instruction scenario -/
+def scopeOf (pid : String) : List Instr :=
+  match pid with
+  | "C04" => Instr.all.filter C04.inTable
+  | "C05" => Instr.all.filter fun i => match i with
+    | .stk _ .id => false
+    | .stk _ _ => true
+    | _ => false
+  | _ => Instr.all
 
 def evalProps (i : Instr) (pre : State) (post : Option State) : String :=
   String.join (propEvals.filterMap fun (id, f) =>
